@@ -107,7 +107,7 @@ func TestHive2(t *testing.T) {
 			name:       name,
 			valid:      [][]byte{pbench.Frame(&hivepb.FindNodeReq{Target: target, Pos: allPos, Limit: 16})},
 			structured: reqs,
-			drive: func(b []byte) error {
+			drive: func(b []byte, step stepFn) error {
 				n := newNode(nil, nil)
 				defer closeNode(n)
 				h := handlerOf(t, n.svc.Protocol(), "findNode")
@@ -143,7 +143,7 @@ func TestHive2(t *testing.T) {
 		name:       "hive2.DoFindNode",
 		valid:      [][]byte{pbench.Frame(&hivepb.Peers{Peers: []*hivepb.AuroraAddress{pa(fresh)}})},
 		structured: reps,
-		drive: func(b []byte) error {
+		drive: func(b []byte, step stepFn) error {
 			n := newNode(b, nil)
 			defer closeNode(n)
 			ctx, cancel := context.WithTimeout(context.Background(), 20*time.Second)
